@@ -18,7 +18,7 @@ from ..fxsym import interp as ix
 from ..fxsym.capture import capture
 from ..fxsym.programs import build, spec_name, tprograms
 from ..par import run_tasks
-from ..report import CONCRETE, INCONCLUSIVE, Report, describe_function
+from ..report import CONCRETE, INCONCLUSIVE, Report, describe_function, lazy
 from ..sym import tensor as T
 from ..sym.runner import discharge
 from ..sym.scalar import Ctx, SReal
@@ -189,7 +189,23 @@ class _SameModuleTwice(torch.nn.Module):
         return self.l(torch.tanh(self.l(x))).sum()
 
 
+class _FrozenAndBuffer(torch.nn.Module):
+    """a frozen (requires_grad=False) layer and a float buffer feed the loss next to a trainable layer"""
+
+    def __init__(self) -> None:
+        super().__init__()
+        self.frozen = torch.nn.Linear(6, 6)
+        for p_ in self.frozen.parameters():
+            p_.requires_grad_(False)
+        self.train_ = torch.nn.Linear(6, 6)
+        self.register_buffer("shift", torch.randn(6))
+
+    def forward(self, x: torch.Tensor) -> torch.Tensor:
+        return (self.train_(torch.tanh(self.frozen(x))) * self.shift).sum()
+
+
 SHARING = {
+    "frozen layer and float buffer": (lambda: _FrozenAndBuffer(), lambda: [torch.randn(4, 6)]),
     "tied embedding/output weight": (lambda: _TiedEmbedOut(), lambda: [torch.randint(0, 9, (5,))]),
     "one weight in two nn.Linear": (lambda: _SharedWeightTwoLinears(False), lambda: [torch.randn(4, 6)]),
     "one weight in two uu.Linear": (lambda: _SharedWeightTwoLinears(True), lambda: [torch.randn(4, 6)]),
@@ -246,6 +262,12 @@ def _bit_identical(p: Any, inputs: List[torch.Tensor], label: str) -> Tuple[bool
     if any((x is None) != (y is None) or (x is not None and not torch.equal(x, y)) for x, y in zip(ga, gb)):
         bad.append("input gradients differ")
     pb = {k: v.grad for k, v in tm.named_parameters() if v.grad is not None}
+    rg_a = {k: v.requires_grad for k, v in list(p.named_parameters()) + list(p.named_buffers())}
+    rg_b = {k: (v.requires_grad, v.grad is not None) for k, v in list(tm.named_parameters()) + list(tm.named_buffers())}
+    for k, flag in rg_a.items():
+        if k in rg_b and (rg_b[k][0] != flag or (not flag and rg_b[k][1])):
+            bad.append(f"{k}: requires_grad {flag} in the module, {rg_b[k][0]} in the tracked copy" + (" (and it received a gradient)" if rg_b[k][1] and not flag else ""))
+            break
     for k in pa:
         if k not in pb or not torch.equal(pa[k], pb[k]):
             bad.append(f"parameter gradient {k} differs")
@@ -473,9 +495,9 @@ def run(rep: Report, only: str = "") -> None:
         tasks = [t for t in tasks if only in (spec_name(t[1][0]) if t[0] is task_program else t[1][0])]
     
     rep.extend(run_tasks(tasks))
-    rep.functions = [describe_function(f) for f in (uts.ScaleTrackingInterpreter.run_node, uts.ScaleTrackingAutogradFunction.forward, uts.ScaleTrackingAutogradFunction.backward,
-                                                    uts.Metrics.from_tensor, uts._get_tracking_meta, uts._is_float_tensor, uts.track_scales, uts._make_input_tensors_require_grad,
-                                                    uut.ScaleTracker.forward, uut.ScaleTracker.backward, uut.ScaleTrackingInterpreter.run_node, uut._record_scales)]
+    rep.functions = [describe_function(f) for f in (lazy(lambda: uts.ScaleTrackingInterpreter.run_node), lazy(lambda: uts.ScaleTrackingAutogradFunction.forward), lazy(lambda: uts.ScaleTrackingAutogradFunction.backward),
+                                                    lazy(lambda: uts.Metrics.from_tensor), lazy(lambda: uts._get_tracking_meta), lazy(lambda: uts._is_float_tensor), lazy(lambda: uts.track_scales), lazy(lambda: uts._make_input_tensors_require_grad),
+                                                    lazy(lambda: uut.ScaleTracker.forward), lazy(lambda: uut.ScaleTracker.backward), lazy(lambda: uut.ScaleTrackingInterpreter.run_node), lazy(lambda: uut._record_scales))]
     rep.bounds = {"programs": f"{len(specs)} programs (C16 vocabulary + fan-out, bool and integer intermediates, views, negation, in-place adds, multiple outputs, parameters, conv), enumerated",
                   "symbolic": "all tensor data and dims universally quantified; every recorded statistic is an opaque term item(stat(T)) over the data symbols and must unify with the same "
                               "statistic of the tensor / total gradient of the plain interpretation",
